@@ -159,6 +159,9 @@ DOUBLES = ["0000000000000000", "8000000000000000", "3ff0000000000000", "bff00000
            "3e112e0be826d695", "7ff0000000000000", "fff0000000000000", "7ff8000000000000", "0010000000000000",
            "4340000000000001", "c340000000000001", "3fdfffffffffffff", "4004000000000000", "bfe0000000000000"]
 
+DOUBLES_GENERIC = ["3ff8000000000000", "4000000000000000", "4004000000000000", "3fe0000000000000", "400921fb54442d18", "3fb999999999999a",
+                   "3fd5555555555555", "4005bf0a8b145769", "4008000000000000", "3ff199999999999a"]
+
 
 def dbl(rng):
     if rng.random() < 0.75:
@@ -227,6 +230,53 @@ def gen_outputs(rng, syms, depth, n):
     shared = [gen_sym(rng, max(1, depth - 1), syms) for _ in range(rng.choice([1, 2, 3]))]
     shared = [s for s in shared if s.startswith("(")] or ["(add x y)"]
     return [gen_sym(rng, depth, syms, shared) for _ in range(n)]
+
+
+def gen_cse_outputs(rng, syms):
+    """outputs aimed at the case splits of cse.cpp's optimisation pass (OptsCSEVisitor / match_common_args): negated products and
+    powers, negative exponents, products and sums that share several factors/addends, a power next to a product of its base and exponent"""
+    atoms = list(syms) + ["(i 2)", "(i 3)"]
+    def power():
+        b = rng.choice(syms)
+        e = rng.choice(["(i 2)", "(i 3)", "(i -1)", "(i -2)", "(q 1 2)", "(q -1 2)"] + list(syms))
+        return "(pow %s %s)" % (b, e)
+    def product():
+        fs = rng.sample(atoms, rng.randint(2, min(4, len(atoms))))
+        if rng.random() < 0.3:
+            fs.append(power())
+        if rng.random() < 0.3:
+            fs.append("(f1 %s %s)" % (rng.choice(["sin", "cos", "exp"]), rng.choice(syms)))
+        return "(mulv %s)" % " ".join(fs)
+    def term():
+        r = rng.random()
+        t = power() if r < 0.35 else product() if r < 0.75 else rng.choice(syms)
+        r = rng.random()
+        if r < 0.35:
+            return "(neg %s)" % t
+        if r < 0.45:
+            return "(mul (i -2) %s)" % t
+        return t
+    outs = []
+    for _ in range(rng.choice([2, 2, 3, 4])):
+        r = rng.random()
+        if r < 0.5:
+            outs.append("(addv %s)" % " ".join(term() for _ in range(rng.choice([2, 2, 3, 4]))))
+        elif r < 0.8:
+            outs.append(product())
+        elif r < 0.9:
+            outs.append("(f1 %s (addv %s %s))" % (rng.choice(["sin", "exp", "cos"]), term(), term()))
+        else:
+            outs.append("(div %s %s)" % (term(), product()))
+    return outs
+
+
+def gen_cse_history(rng):
+    """one cse=1 init on algebraic outputs with heavy sharing, followed by calls on generic (non-special) points, then the same with cse=0"""
+    syms = rng.sample(SYMS[:4], rng.randint(2, min(4, len(SYMS[:4]))))
+    outs = gen_cse_outputs(rng, syms)
+    pts = ["C " + " ".join(rng.choice(DOUBLES_GENERIC) for _ in syms) for _ in range(2)]
+    body = " ;; ".join(syms) + " :: " + " ;; ".join(outs)
+    return "H " + " || ".join(["I 1 :: " + body] + pts + ["I 0 :: " + body] + pts)
 
 
 def gen_history(rng, tier):
